@@ -187,6 +187,18 @@ CHECKS["C15"] = (
     "DESIGN.md 5.2, 6 (C15)",
 )
 
+CHECKS["C05"] = (
+    "model_checking",
+    "exhaustive enumeration of byte patterns (all for 1-/2-byte types, float16, char, wchar; boundary and walking-bit alphabets for wider types; dense LEB128 ranges) against int.from_bytes/struct/UTF-16/textbook LEB128, plus exhaustive enumeration of endianness-switch histories",
+    "Every built-in scalar name and every one of the ~90 synonyms (each must resolve to the very type of its group) under the byte orders <, > and !: "
+    "all 256/65536 patterns of the 1- and 2-byte integers (bulk and individually), boundary/walking-one/walking-zero patterns of the 3-16 byte "
+    "integers, all 65536 float16 patterns and boundary/walking-bit patterns of float/double, all 256 chars, all 65536 wchar code units (lone "
+    "surrogates must not decode silently) and surrogate pairs, LEB128 on [-2^14-2, 2^14+2] and around +-2^(7j), +-2^(7j-1): decode and encode are "
+    "exact inverses of the standard encodings. All histories of 3 (thorough 4) operations over {set endianness, parse/dump 7 scalar families, "
+    "parse/dump a compiled and an interpreted structure} from each initial byte order follow the endianness current at each call.",
+    "DESIGN.md 6 (C05)",
+)
+
 NOT_APPLICABLE = {}
 
 
